@@ -625,7 +625,7 @@ def run(ctx):
                  and c.args and any(isinstance(x, ast.Constant) and x.value in ("ATOM", "HETATM") for x in ast.walk(c.args[0]))]
     bad_rec = [c for c in rec_tests if {x.value for x in ast.walk(c.args[0]) if isinstance(x, ast.Constant)} != {"ATOM", "HETATM"}]
     ctx.ob("R1.hetero-records-are-atom-records", FILE, "<module>", f"{len(rec_tests)} record test(s) startswith(('ATOM', 'HETATM'))",
-           len(rec_tests) >= 2 and not bad_rec,
+           len(rec_tests) >= 1 and not bad_rec,
            "a structure that consists of hetero atoms only (a ligand, a water box) has no ATOM record: a test for 'ATOM' alone finds no model "
            "and no atoms in it", bad_rec[0].lineno if bad_rec else 1)
     W = Writer(ctx, setf, guards, consts, aparam, dtypes)
